@@ -627,6 +627,31 @@ pub struct CompareOut {
     pub on_boundary: usize,
     pub multi_boundary: usize,
     pub undefined_inputs: usize,
+    pub thin_exempt: usize,
+}
+
+impl Ref {
+    /// Does the path taken by x cross a region that does not contain a ball of radius delta?
+    /// (closed versions of the guards, as the library's path polytopes are closed)
+    pub fn thin_path(&self, x: &[Q], n: usize, delta: &Q) -> bool {
+        let mut cur = self;
+        let mut rows: Vec<Row> = Vec::new();
+        loop {
+            match cur {
+                Ref::Leaf { .. } => return false,
+                Ref::Split(parts) => match parts.iter().find(|(g, _)| g.iter().all(|r| r.holds(x))) {
+                    Some((g, sub)) => {
+                        rows.extend(g.iter().map(|r| Row::le(r.a.clone(), r.b.clone())));
+                        if !lp::has_ball(&rows, n, delta) {
+                            return true;
+                        }
+                        cur = sub;
+                    }
+                    None => return false,
+                },
+            }
+        }
+    }
 }
 
 pub fn compare_tree<const K: usize>(
@@ -635,6 +660,19 @@ pub fn compare_tree<const K: usize>(
     reference: &Ref,
     inputs: &[QVec],
     mode: &EquivMode,
+) -> Result<CompareOut, (String, serde_json::Value)> {
+    compare_tree_opts(what, t, reference, inputs, mode, false)
+}
+
+/// `thin_rule`: inputs whose (unpruned) reference path crosses a region without a ball of radius
+/// 1e-6 are not judged (only where the property grants "thinner than the LP tolerance").
+pub fn compare_tree_opts<const K: usize>(
+    what: &str,
+    t: &AffTree<K>,
+    reference: &Ref,
+    inputs: &[QVec],
+    mode: &EquivMode,
+    thin_rule: bool,
 ) -> Result<CompareOut, (String, serde_json::Value)> {
     let n = t.in_dim;
     well_formed(t, None).map_err(|e| (format!("{what}: tree is not well-formed: {e}"), serde_json::Value::Null))?;
@@ -656,8 +694,13 @@ pub fn compare_tree<const K: usize>(
             ));
         }
     };
-    let mut out = CompareOut { stats, inputs: 0, on_boundary: 0, multi_boundary: 0, undefined_inputs: 0 };
+    let mut out = CompareOut { stats, inputs: 0, on_boundary: 0, multi_boundary: 0, undefined_inputs: 0, thin_exempt: 0 };
+    let delta = Q::from_f64(1e-6);
     for p in inputs {
+        if thin_rule && reference.thin_path(p, n, &delta) {
+            out.thin_exempt += 1;
+            continue;
+        }
         let exp = reference.eval(p);
         let xv = ndarray::Array1::from_iter(p.iter().map(|q| q.to_f64()));
         let got = crate::runner::guard(|| t.evaluate(&xv)).map_err(|pm| (format!("{what}: evaluate panicked: {pm}"), serde_json::json!({"input": xv.to_vec()})))?;
